@@ -145,7 +145,7 @@ def all_splits(n, maxpieces):
 class Check(DiffCheck):
     id = 'C13'
     coq_dirs = ['Base', 'C13']
-    coq_targets = ['C13/C13_Statements.vo', 'C13/C13_ChunkSafe.vo', 'C13/C13_ChunkDecode.vo', 'C13/C13_Roundtrip.vo', 'C13/C13_ChunkTotal.vo', 'C13/C13_ParseSafe.vo']
+    coq_targets = ['C13/C13_Statements.vo', 'C13/C13_ChunkSafe.vo', 'C13/C13_ChunkDecode.vo', 'C13/C13_Roundtrip.vo', 'C13/C13_ChunkTotal.vo', 'C13/C13_ParseSafe.vo', 'C13/C13_ParseIndep.vo', 'C13/C13_ParseTail.vo']
     properties_v = 'C13/C13_Properties.v'
     extract_v = 'C13/C13_Extract.v'
     runner_ml = 'ocaml/C13_run.ml'
